@@ -135,6 +135,27 @@ def plan_vs_json(plan, bp):
             if rows:
                 if len(rows) != len(jrows):
                     problems.append(("condition-rows", pid, len(rows), len(jrows)))
+                else:
+                    for i, (r, j) in enumerate(zip(rows, jrows)):
+                        if not isinstance(r, dict):
+                            continue
+                        for key, wkey, jw in (("first_signal", "first_signal_wires", "first_signal_networks"),
+                                              ("second_signal", "second_signal_wires", "second_signal_networks")):
+                            v = r.get(key)
+                            if isinstance(v, str):
+                                if (j.get(key) or {}).get("name") != v:
+                                    problems.append(("row-" + key, pid, i, v, j.get(key)))
+                                want = _nets(r.get(wkey))
+                                if want is not None and (want["red"] or want["green"]) and _json_nets(j.get(jw)) != want:
+                                    problems.append(("row-" + key + "-networks", pid, i, want, j.get(jw)))
+                        if isinstance(r.get("first_signal"), str):
+                            if not r.get("second_signal") and isinstance(r.get("second_constant"), int) and j.get("constant", 0) != r["second_constant"]:
+                                problems.append(("row-constant", pid, i, r["second_constant"], j.get("constant", 0)))
+                            wc, jc = r.get("comparator", ">"), j.get("comparator", "<")
+                            if CMP_NORM.get(wc, wc) != CMP_NORM.get(jc, jc):
+                                problems.append(("row-comparator", pid, i, wc, jc))
+                        if i > 0 and r.get("compare_type", "or") != j.get("compare_type", "or"):
+                            problems.append(("row-compare-type", pid, i, r.get("compare_type", "or"), j.get("compare_type", "or")))
             else:
                 if len(jrows) != 1:
                     problems.append(("condition-rows", pid, 1, len(jrows)))
@@ -142,6 +163,17 @@ def plan_vs_json(plan, bp):
                     want_cmp = CMP_NORM.get(pr.get("operation", "="), pr.get("operation"))
                     if CMP_NORM.get(jrows[0].get("comparator", "<"), jrows[0].get("comparator")) not in (want_cmp,) and not isinstance(pr.get("left_operand"), int):
                         problems.append(("comparator", pid, want_cmp, jrows[0].get("comparator", "<")))
+                    if not isinstance(pr.get("left_operand"), int):
+                        for side, key, jw in (("left", "first_signal", "first_signal_networks"), ("right", "second_signal", "second_signal_networks")):
+                            v = pr.get(f"{side}_operand")
+                            if isinstance(v, str):
+                                if (jrows[0].get(key) or {}).get("name") != v:
+                                    problems.append((f"{side}-signal", pid, v, jrows[0].get(key)))
+                                want = _nets(pr.get(f"{side}_operand_wires"))
+                                if want is not None and (want["red"] or want["green"]) and _json_nets(jrows[0].get(jw)) != want:
+                                    problems.append((f"{side}-networks", pid, want, jrows[0].get(jw)))
+                            elif side == "right" and isinstance(v, int) and jrows[0].get("constant", 0) != v:
+                                problems.append(("right-constant", pid, v, jrows[0].get("constant", 0)))
             outs = c.get("outputs") or []
             if len(outs) != 1:
                 problems.append(("outputs", pid, len(outs)))
